@@ -81,6 +81,7 @@ def orderBy (size : Nat → Nat) (perm : List Nat) (disk : List Nat) : List Nat 
 
 def handleDrv (line : String) : String :=
   let secs := (line.splitOn "|").map (fun s => s.trimAscii.toString)
+  let secs := secs.map (fun s => if s.startsWith "drv " then (s.drop 4).toString else s)     -- the first section follows the command word
   let get (n : String) := section? secs n
   let c := (get "cfg").splitOn ","
   let g (i : Nat) := c.getD i "N"
@@ -123,7 +124,11 @@ def handleDrv (line : String) : String :=
   let (outcome, x) := match r with
     | .inl (x, _) => ("ok", x)
     | .inr (e, x) => (showErr e, x)
-  let evs := x.side.log.filterMap showEv
+  let dbg := get "debug" = "1"
+  let evs := x.side.log.filterMap (fun e => match e with
+    | .sched p o => if dbg then some s!"S{p}.{o}" else none
+    | .fail p => if dbg then some s!"X{p}" else none
+    | e => showEv e)
   let keys := (passes.map (·.key)).eraseDups
   let stat := keys.map fun k => s!"{k}:{x.side.worked k}/{x.side.failed k}/{x.side.executed k}"
   let tot (f : Nat → Nat) : Nat := (keys.map f).foldl (· + ·) 0
